@@ -2,6 +2,7 @@
 """Entry point: python3 check.py <Cxx> [--tier quick|thorough] [--replay file] | --setup | --all"""
 import argparse
 import importlib
+import json
 import os
 import sys
 
@@ -19,29 +20,37 @@ def all_ids():
 
 
 def setup():
-    """full build from files on disk: tables, Lean modules of every check, drivers, harnesses"""
+    """full build from files on disk: tables, Lean modules of every check, drivers, harnesses.
+    A property whose own targets do not build is reported and skipped: its check will say so itself."""
     try:
         from extract import extract as ex
         ex.regenerate()
-    except ImportError:
-        pass
-    mods, drivers, specs = [], [], []
+    except Exception as e:
+        print("setup: extraction failed: %r" % (e,))
+    bad = []
     for pid in all_ids():
-        spec = load(pid)
-        specs.append(spec)
-        mods += list(spec.lean_modules) + list(spec.extra_modules)
-        drivers += [s.driver for s in spec.suites() if s.driver]
-    ok, out = core.lake_build(sorted(set(mods)) + sorted(set(drivers)))
-    if not ok:
-        print(out[-6000:])
-        return 2
-    for spec in specs:
-        for s in spec.suites():
-            hname, hsrc, hkw = s.harness
-            core.build_harness(hname, hsrc, **hkw)
-        if hasattr(spec, "prebuild"):
-            spec.prebuild()
-    print("setup ok")
+        try:
+            spec = load(pid)
+            targets = sorted(set(list(spec.lean_modules) + list(spec.extra_modules) + [s.driver for s in spec.suites() if s.driver]))
+            ok, out = core.lake_build(targets)
+            if not ok:
+                bad.append(pid)
+                print("setup: %s: lake build failed:\n%s" % (pid, out[-1500:]))
+                continue
+            seen = set()
+            for s in spec.suites():
+                hname, hsrc, hkw = s.harness
+                key = (hname, tuple(hsrc), json.dumps(hkw, sort_keys=True))
+                if key in seen:
+                    continue
+                seen.add(key)
+                core.build_harness(hname, hsrc, **hkw)
+            if hasattr(spec, "prebuild"):
+                spec.prebuild()
+        except Exception as e:
+            bad.append(pid)
+            print("setup: %s: %r" % (pid, e))
+    print("setup done; not ready: %s" % (bad or "none"))
     return 0
 
 
